@@ -29,6 +29,7 @@ pub fn install_panic_hook() {
         } else {
             "?".to_string()
         };
+        eprintln!("PANIC: {} @ {}", msg, loc);
         if let Ok(mut g) = PANIC_MSG.lock() {
             *g = format!("{} @ {}", msg, loc);
         }
